@@ -5,7 +5,7 @@ from props import netprops
 
 LEVEL = "proof"
 RULE = ("names generated from the documented grammar (capitalised words, dotted acronyms, roman numerals, leading / inner / trailing numbers, "
-        "hyphenated words and numbers incl. text after a hyphenated number, bracketed year or edition, ' - Mod' suffix, punctuation) x candidate ids "
+        "hyphenated words and numbers incl. text after a hyphenated number, words put together from letter runs, digit runs and hyphens in any order, bracketed year or edition, ' - Mod' suffix, punctuation) x candidate ids "
         "(the ids the checker itself reports as expected, near misses, case variants, junk); lists of 1-4 games; the shipped definitions table. "
         "Oracle on the implementation: never a panic; for a single game an id is accepted exactly when it is one of the ids reported as expected "
         "for that name, and that set does not depend on the wrong id proposed; the shipped table passes. Distinct = distinct outputs.")
@@ -18,7 +18,26 @@ WORDS = ["Dead", "Cells", "The", "Binding", "of", "Isaac", "Day", "Dragons", "De
 ACRO = ["S.T.A.L.K.E.R.", "S.T.A.L.K.E.R", "F.E.A.R.", "ARMA", "DayZ", "ATLAS", "V", "PixARK"]
 ROMAN = ["II", "III", "IV", "V", "IX", "XIV", "MMXX", "I", "IIII", "VX", "MCMXCIX", "D", "M"]
 NUMS = ["2", "4", "7", "10", "1942", "2003", "0", "007", "44", "65535", "65536", "3"]
-HYPH = ["D-Day", "Half-Life", "'44-'45", "4-Dead", "44-text", "Co-op", "X-Com", "1-2-3", "Day-", "-Day", "9-"]
+HYPH = ["D-Day", "Half-Life", "'44-'45", "4-Dead", "44-text", "Co-op", "X-Com", "1-2-3", "Day-", "-Day", "9-",
+        "Arma3-Exile", "Life2-Deathmatch", "Alpha2-", "B17-G", "Doom3-", "2Fort-", "X2-", "Left4Dead", "Battalion1944", "DOOM3"]
+
+
+def glued_token(rnd):
+    """a word put together from letter runs, digit runs and hyphens / apostrophes / dots in any order (the grammar allows
+    numbers glued to words and hyphens anywhere inside a word): Arma3-Exile, 2Fort-, B-17g, '44-'45 …"""
+    segs = []
+    for _ in range(rnd.choice([2, 2, 3, 3, 4, 5])):
+        k = rnd.random()
+        if k < 0.4:
+            segs.append(rnd.choice(["Arma", "Life", "Day", "X", "b", "Fort", "Exile", "G", "Mod", "op"]))
+        elif k < 0.7:
+            segs.append(rnd.choice(["2", "3", "17", "44", "1944", "0", "007"]))
+        elif k < 0.92:
+            segs.append("-")
+        else:
+            segs.append(rnd.choice(["'", "."]))
+    t = "".join(segs)
+    return t if any(ch.isalnum() for ch in t) else t + "A"
 SUFFIX = ["", "", "", " (2017)", " (2005)", " (java)", " (bedrock)", " (legacy 1.6)", " (2017) (beta)", " ()", " (65536)", " 2 (2017)"]
 MODS = ["", "", "", " - FiveM", " - Multiplayer", " - Mod 2", "-Mod", " - "]
 
@@ -36,8 +55,10 @@ def gen_name(rnd):
             toks.append(rnd.choice(ROMAN))
         elif c < 0.85:
             toks.append(rnd.choice(NUMS))
-        else:
+        elif c < 0.93:
             toks.append(rnd.choice(HYPH))
+        else:
+            toks.append(glued_token(rnd))
     name = " ".join(toks)
     if rnd.random() < 0.15:
         name = name.replace(" ", "  ", 1)
